@@ -56,6 +56,14 @@ def parameter(draw, dialect, loc, name, *, allow_arrays=True):
             break
     else:
         s, w = {"type": "integer"}, 1
+    if loc == "path" and draw(st.integers(0, 7)) == 0:
+        # every admissible value carries a character that ends the path in a URL (`c#`, `why?`): percent-encoding makes it a
+        # perfectly sendable segment
+        if draw(st.booleans()):
+            vals = draw(st.lists(st.sampled_from(["c#", "f#", "why?", "a?b", "#1", "x#y?z"]), min_size=1, max_size=3, unique=True))
+            s, w = {"type": "string", "enum": vals}, vals[0]
+        else:
+            s, w = {"type": "string", "pattern": "^#[0-9a-f]{3}$"}, "#0af"
     required = True if loc == "path" else draw(st.booleans())
     return {"name": name, "in": loc, "required": required, "schema": s, "witness": w}
 
